@@ -393,7 +393,7 @@ fn main() {
     ctx.assume("short reads / partial writes are allowed (at least one byte when possible); a write accepted after the writer's own shutdown is tolerated by the oracle (the implementation rejects it)");
 
     // (capacity, budget, depth)
-    let (d_gen, d_small) = ctx.pick((8u8, 7u8), (10u8, 9u8));
+    let (d_gen, d_small) = ctx.pick((8u8, 7u8), (9u8, 8u8));
     let mut configs = vec![];
     for cap in 1u32..=4 {
         configs.push((cap, 64u8, d_gen));
